@@ -298,7 +298,7 @@ def c03_jobs(tier):
 
 def c04_jobs(tier):
     q = tier == "quick"
-    js = [mut("ZZ_Mut_Start", 2, 0, 2, nd=3), mut("ZZ_Mut_Stop", 3, 1, 0, sw=0, nd=2), mut("ZZ_Mut_Stop", 3, 2, 1, sw=1, nd=2),
+    js = [mut("ZZ_Mut_Start", 2, 0, 2, nd=3, resume=1), mut("ZZ_Mut_Stop", 3, 1, 0, sw=0, nd=2), mut("ZZ_Mut_Stop", 3, 2, 1, sw=1, nd=2),
           mut("ZZ_Mut_Track", 2, 1, 1), mut("ZZ_Mut_Create", 2, 0, 3),
           mut("ZZ_Mut_Pause", 2, 1, 1, ticks=2, extend=0), mut("ZZ_Mut_Pause", 2, 0, 2, ticks=1, extend=0),
           mut("ZZ_Mut_History", 2, 1, 1, steps=2, nd=2), mut("ZZ_Mut_History", 1, 0, 0, steps=3), job("ZZ_Mut_Layouts", C)]
@@ -501,9 +501,9 @@ CHECKS = {
     },
     "C04": {
         "jobs": c04_jobs, "asserts": A_C04,
-        "bounds": {"quick": "one inductive step of every command from every conforming 2-3 line file (the file is the only state and is re-parsed by every command), pause for 1 tick with symbolic minutes and 3 ticks with increments {0,1,59,61}, histories of 2-3 commands (track/start/stop) where each output feeds the next",
+        "bounds": {"quick": "one inductive step of every command from every conforming 2-3 line file (the file is the only state and is re-parsed by every command; start with --summary, --resume and --resume-nth 1 / -2), pause for 1 tick with symbolic minutes and 3 ticks with increments {0,1,59,61}, histories of 2-3 commands (track/start/stop) where each output feeds the next",
                    "thorough": "histories of 3-4 commands, pause --extend, 3-line files for track/create"},
-        "outside": "longer histories (covered by the inductive step only), --resume/--resume-nth summaries, switch --summary variants",
+        "outside": "longer histories (covered by the inductive step only), --resume on switch, switch --summary variants",
         "stubs": MUT_STUBS, "assumptions": MUT_ASSUME + ["the abstract model is the generator's denotation of the file (records as lists of (kind, values, summary)), advanced per command in the harness"],
     },
     "C05": {
